@@ -102,6 +102,15 @@ func (e *SpecEnv) typesPkg() *types.Package {
 	return nil
 }
 
+func (e *SpecEnv) resolveTypeSafe(t *SType) (r types.Type) {
+	defer func() {
+		if x := recover(); x != nil {
+			r = nil
+		}
+	}()
+	return e.resolveType(t)
+}
+
 func (e *SpecEnv) resolveType(t *SType) types.Type {
 	switch t.Kind {
 	case "ptr":
@@ -764,9 +773,15 @@ func (e *SpecEnv) index(x *SExpr) *Val {
 		ks := layoutTE(tt.Key(), e.te)
 		mname := "map:" + typeName(e.te.apply(v.T))
 		out := &Val{T: tt.Elem()}
-		for _, l := range layoutTE(tt.Elem(), e.te) {
+		if isIface := isIfaceType(e.te.apply(k.T)); !isIface && ks[0].Sort == SAny {
+			k = &Val{T: tt.Key(), L: []*Term{boxAny(k, e.te)}}
+		}
+		// Go semantics: the zero value for an absent key
+		pres := Select(Select(e.st.comp(mname+"#present", ArrSort(SInt, ArrSort(ks[0].Sort, SBool))), v.L[0]), k.L[0])
+		z := zeroVal(tt.Elem(), e.te)
+		for i, l := range layoutTE(tt.Elem(), e.te) {
 			name := joinPath(mname+"#val", l.Path)
-			out.L = append(out.L, Select(Select(e.st.comp(name, ArrSort(SInt, ArrSort(ks[0].Sort, l.Sort))), v.L[0]), k.L[0]))
+			out.L = append(out.L, Ite(pres, Select(Select(e.st.comp(name, ArrSort(SInt, ArrSort(ks[0].Sort, l.Sort))), v.L[0]), k.L[0]), z.L[i]))
 		}
 		return out
 	}
@@ -1025,7 +1040,14 @@ func (e *SpecEnv) applySpecArgs(x *SExpr, sf *SpecFunc, avs []*Val) *Val {
 	n.fr = nil // spec bodies see only their parameters
 	n.fn = nil
 	n.result = nil
-	return n.eval(sf.Body)
+	out := n.eval(sf.Body)
+	if sf.Ret != nil && out != nil && len(out.L) == 1 && out.L[0].Sort == SAny {
+		// an interface-valued specification function has its declared type (so that pure methods can be called on it)
+		if rt := n.resolveTypeSafe(sf.Ret); rt != nil && isIfaceType(rt) {
+			return &Val{T: rt, L: out.L, A: out.A}
+		}
+	}
+	return out
 }
 
 func leafSuffix(p string) string {
